@@ -12,7 +12,13 @@ the cache and forward cache hits directly):
 * `arriveEvent e pk`    — `DispatchEvent(e)` likewise, followed by `handleIncomingEvent` on a miss;
 * `sendLookup`          — the `toLookupC <- toLookupIP` case: one pending source goes to `IpSink()`;
 * `info s r`            — `handleInstanceInfo` for `InstanceInfo{IP: s, Instance: r}`;
-* `emit`                — the `emitChan` case: the gauges are written to the statser.
+* `emit`                — the `emitChan` case: the gauges are written to the statser;
+* `block` / `unblock`   — the DOWNSTREAM handler stops / resumes returning from `DispatchMetricMap` and
+                          `DispatchEvent` (a slow backend).  The owner loop never calls downstream itself
+                          (`handleInstanceInfo` hands the released data to goroutines), so it keeps
+                          parking arrivals, requesting lookups and releasing while downstream is blocked;
+                          what the release goroutines hand over meanwhile is `held` and reaches
+                          `delivered` — in the order it was produced — at `unblock`.
 
 What is kept exactly as the code has it: per-entry handling and the order of the bookkeeping
 (`prepareMetricQueue`, `handleIncomingEvent`), the condition under which a lookup is requested and
@@ -24,7 +30,11 @@ Abstractions (named in handoff/C11.md): the goroutines `go updateAndDispatch…`
 `info` action (metrics first, then the events in order; the harness does not compare the relative
 order of the two goroutines); `toLookupIPs` together with the one-element hand `toLookupIP` is one
 stack (the order of sink writes is not part of the property and is not compared); the hit/miss
-counters are per cache query as in the code.
+counters are per cache query as in the code.  While downstream is blocked an arrival with a cache hit
+would block its CALLER inside `DispatchMetricMap` / `DispatchEvent` before the missed part reaches
+the owner loop; the model puts the forwarded part into `held` and parks the missed part at once (the
+two commute except for the order of lookup requests) — the driver and the harness never run that
+combination (such an op first unblocks).
 -/
 namespace Gsd
 namespace Cloud
@@ -163,8 +173,14 @@ structure St (α : Type) where
   eventItems : Int := 0
   cacheHit : Nat := 0
   cacheMiss : Nat := 0
-  /-- what reached the downstream handler, in order -/
+  /-- what reached the downstream handler (and was taken by it), in order -/
   delivered : List (Delivery α) := []
+  /-- downstream is not returning from its dispatch calls -/
+  blocked : Bool := false
+  /-- released / forwarded by the stage while downstream is blocked, in order of production: the
+  goroutines `updateAndDispatch…` (and callers of `Dispatch…` with a hit) are stuck in or before their
+  downstream call -/
+  held : List (Delivery α) := []
   /-- what was written to `IpSink()`, in order -/
   sent : List String := []
   /-- the gauge values of every emission: hit, miss, hosts(metric), hosts(event), items(event) -/
@@ -176,8 +192,17 @@ inductive Action (α : Type) where
   | sendLookup
   | info (s : String) (r : Option Inst)
   | emit
+  | block
+  | unblock
 
 variable {α : Type} [Add α]
+
+/-- the stage hands `ds` to the downstream handler -/
+def deliver (st : St α) (ds : List (Delivery α)) : St α :=
+  if st.blocked then { st with held := st.held ++ ds } else { st with delivered := st.delivered ++ ds }
+
+/-- everything the stage has let go of: taken by downstream, or stuck in front of it -/
+def outbound (st : St α) : List (Delivery α) := st.delivered ++ st.held
 
 /-- `len(ch.awaitingEvents[source]) == 0` -/
 def noEvents (st : St α) (src : String) : Bool :=
@@ -212,21 +237,19 @@ def parkEvent (fix : Bool) (st : St α) (e : Event) : St α :=
 def releaseMetrics (st : St α) (s : String) (r : Option Inst) : St α :=
   match AList.lookup s st.awaitingMetrics with
   | some m =>
-    { st with
+    deliver { st with
       awaitingMetrics := AList.erase s st.awaitingMetrics
-      metricHosts := st.metricHosts - 1
-      delivered := st.delivered ++ [.metrics (rekeyEntries (fun _ => r) (entries m))] }
+      metricHosts := st.metricHosts - 1 } [.metrics (rekeyEntries (fun _ => r) (entries m))]
   | none => st
 
 /-- the event half of `handleInstanceInfo` -/
 def releaseEvents (st : St α) (s : String) (r : Option Inst) : St α :=
   match AList.lookup s st.awaitingEvents with
   | some (e :: es) =>
-    { st with
+    deliver { st with
       awaitingEvents := AList.erase s st.awaitingEvents
       eventItems := st.eventItems - ((e :: es).length : Int)
-      eventHosts := st.eventHosts - 1
-      delivered := st.delivered ++ (e :: es).map (fun x => .event (enrichEvent r x)) }
+      eventHosts := st.eventHosts - 1 } ((e :: es).map (fun x => .event (enrichEvent r x)))
   | _ => st
 
 /-- number of cache queries of a batch that hit / miss (`getInstance` does not count the empty source) -/
@@ -242,13 +265,13 @@ def step (fix : Bool) (st : St α) : Action α → St α
     let out := rekeyEntries (instOf pk) hits
     let q := countQueries pk (es.map Ent.src)
     let st0 := { st with cacheHit := st.cacheHit + q.1, cacheMiss := st.cacheMiss + q.2 }
-    let st1 := if out.isEmpty then st0 else { st0 with delivered := st0.delivered ++ [.metrics out] }
+    let st1 := if out.isEmpty then st0 else deliver st0 [.metrics out]
     misses.foldl (parkEnt fix) st1
   | .arriveEvent e pk =>
     let q := countQueries pk [e.src]
     let st0 := { st with cacheHit := st.cacheHit + q.1, cacheMiss := st.cacheMiss + q.2 }
     match cacheView pk e.src with
-    | some i => { st0 with delivered := st0.delivered ++ [.event (enrichEvent i e)] }
+    | some i => deliver st0 [.event (enrichEvent i e)]
     | none => parkEvent fix st0 e
   | .sendLookup =>
     match st.toLookup with
@@ -259,6 +282,8 @@ def step (fix : Bool) (st : St α) : Action α → St α
     { st2 with inFlight := st2.inFlight.erase s }
   | .emit =>
     { st with emitted := st.emitted ++ [(st.cacheHit, st.cacheMiss, st.metricHosts, st.eventHosts, st.eventItems)] }
+  | .block => { st with blocked := true }
+  | .unblock => { st with blocked := false, delivered := st.delivered ++ st.held, held := [] }
 
 def init : St α := {}
 
